@@ -20,10 +20,12 @@ Fixpoint last_add (acts : list action) (cur : option layer) : option layer :=
 Definition F6 (fam : family) : Prop :=
   forall t d data o acts t', fam t = Some d -> d data o = (acts, Next t') -> has_add acts = true.
 
-(* progress: a decoder that continues hands a strictly shorter payload to its successor *)
+(* progress: a decoder that continues has added a layer whose payload is strictly shorter than
+   the data it was given (or empty: then NextDecoder stops) *)
 Definition progress (fam : family) : Prop :=
   forall t d data o acts t', fam t = Some d -> d data o = (acts, Next t') ->
-    exists l, last_add acts None = Some l /\ (length (l_payload l) < length data)%nat.
+    exists l, last_add acts None = Some l /\
+              ((length (l_payload l) < length data)%nat \/ l_payload l = []).
 
 (* F2: no decoder calls SetErrorLayer *)
 Definition is_seterr (a : action) : bool := match a with SetError _ => true | _ => false end.
@@ -412,7 +414,7 @@ Proof.
   destruct (HP _ _ _ _ _ _ EF ED) as [l [HL Hlen]].
   rewrite last_run_actions. erewrite last_add_indep by exact HL. rewrite HL.
   destruct (l_payload l) eqn:EP; cbn; [discriminate|].
-  apply IH. lia.
+  apply IH. destruct Hlen as [Hlen|Hlen]; [lia|discriminate].
 Qed.
 
 Lemma last_add_none_has acts : forall l, last_add acts None = Some l -> has_add acts = true.
